@@ -366,6 +366,13 @@ impl RunCtx {
         self.violations.borrow_mut().push(v);
     }
 
+    /// A verdict of the harness itself about the state left on disk (made after the kill instant).
+    pub fn violate_post_mortem(&self, props: &[&str], rule: &str, cause: impl Into<String>, detail: impl Into<String>) {
+        let mut v = Violation::new(&props.join(","), rule, cause.into(), detail.into());
+        v.event_seq = self.world.seq();
+        self.violations.borrow_mut().push(v);
+    }
+
     pub fn attached(&self) -> BTreeSet<usize> {
         let w = self.world.inner.borrow();
         let ignored = self.ignored.borrow();
